@@ -120,6 +120,8 @@ fn cases(max_n: usize) -> Vec<Case> {
         // the question
         let mut m = base_msg(&sub(&ba), T_A, true);
         m.an.push(name_rec(&sub(&ba), T_CNAME, 1, &ba));
+        m.ns.push(name_rec(&ba, T_NS, 1, &sub(&ba)));
+        m.ar.push(a_rec(&ba, 3, [3, 3, 3, 3]));
         m.ar.push(opt_variants()[1].clone());
         v.push(Case { bytes: encode(&m, strat), sec: Sec::Question, incl_opt: false, tag: format!("sec=question opt=last n=1 ptr={}", (strat == Strategy::Max) as u8) });
     }
